@@ -36,7 +36,7 @@ def esc(s: str) -> str:
     out = []
     for ch in s:
         o = ord(ch)
-        if 32 <= o <= 126 and ch not in "\\|,":
+        if 32 <= o <= 126 and ch not in "\\|,;=~":
             out.append(ch)
         else:
             out.append("\\u{%x}" % o)
